@@ -11,9 +11,9 @@ CONSTANTS
   NDefaults = 0
   Inter = {TRUE}
   Multis = {FALSE}
-  Muts = {0, 1, 2, 3}
+  Muts = {0, 1, 2}
   RouteIds = {1}
-  Reconfs = {0, 2}
+  Reconfs = {0, 2, 3, 4}
   Rounds = 2
 INVARIANT TypeOK
 INVARIANT H_sane
@@ -25,6 +25,7 @@ INVARIANT P_reject
 INVARIANT P_attempts
 INVARIANT P_errors
 INVARIANT P_eof
+INVARIANT P_typed
 INVARIANT P_confirm
 INVARIANT A_prompts
 INVARIANT A_object
